@@ -369,7 +369,12 @@ struct Transport::Impl
             {
               return; // M-3: don't grow a buffer no one will drain
             }
-            if (bufIt->second->data.size() + data.size() > config.maxSyncReceiveBuffer)
+            // Overflow is terminal for the buffer (see SyncReceiveBuffer::overflow): once a
+            // chunk has been dropped, every later chunk is dropped too. Appending a later,
+            // smaller chunk that happens to fit would hand the reader bytes from beyond the
+            // gap BEFORE it sees BufferOverflow - an undetectable hole in the stream.
+            if (bufIt->second->overflow ||
+                bufIt->second->data.size() + data.size() > config.maxSyncReceiveBuffer)
             {
               // Overflow: surface a distinct error to the parked waiter instead
               // of silently dropping (which would only fail at the caller's
